@@ -40,6 +40,16 @@ impl Clone for Location {
 }
 impl Copy for Location {}
 
+// spec functions about message texts live in a submodule (the broadcast lemmas of spec_failed.rs depend on them)
+pub mod msg_model {
+use vstd::prelude::*;
+pub open spec fn msg_or_empty(o: Option<String>) -> Seq<char> {
+    match o { Some(s) => s@, None => Seq::<char>::empty() }
+}
+pub uninterp spec fn one_line(o: Option<String>) -> Seq<char>;
+} // mod msg_model
+pub use msg_model::*;
+
 // stands for `Vec::extend(Vec)`
 #[verifier::external_body]
 pub fn verif_vec_extend<T>(v: &mut Vec<T>, o: Vec<T>)
@@ -48,16 +58,12 @@ pub fn verif_vec_extend<T>(v: &mut Vec<T>, o: Vec<T>)
 
 // stands for `opt.as_ref().map_or(String::default(), |s| s.to_string())` and `opt.as_ref().map_or("", String::as_str).to_string()`:
 // the custom message if there is one, the empty string otherwise
-pub open spec fn msg_or_empty(o: Option<String>) -> Seq<char> {
-    match o { Some(s) => s@, None => Seq::<char>::empty() }
-}
 #[verifier::external_body]
 pub fn verif_msg_or_empty(o: &Option<String>) -> (r: String)
     ensures r@ == msg_or_empty(*o),
 { unimplemented!() }
 
 // stands for `msg.as_ref().map_or("".to_string(), |s| s.replace('\n', ";"))` (text normalised: opaque, R1)
-pub uninterp spec fn one_line(o: Option<String>) -> Seq<char>;
 #[verifier::external_body]
 pub fn verif_msg_one_line(o: &Option<String>) -> (r: String)
     ensures r@ == one_line(*o),
@@ -542,6 +548,59 @@ pub enum ClauseReport<'value> {
     Disjunctions(DisjunctionsReport<'value>),
     Clause(GuardClauseReport),
 }
+// ---- raw spec_report_names.rs (in a submodule: the broadcast lemma of spec_failed.rs refers to it) + cr_rule_name on the real ClauseReport
+pub mod names {
+use vstd::prelude::*;
+use super::*;
+// cr_rule_name on the real ClauseReport (uninterpreted in group report)
+pub open spec fn cr_rule_name(cr: ClauseReport) -> Option<Seq<char>> {
+    match cr { ClauseReport::Rule(rr) => Some(rr.name@), _ => None }
+}
+// shared by the `report` and `failed` groups (C09): rule names of a record list / of a not_compliant list
+pub open spec fn rule_status_of(e: EventRecord) -> Option<(Seq<char>, Status)> {
+    match e.container {
+        Some(RecordType::RuleCheck(ns)) => Some((ns.name@, ns.status)),
+        _ => None,
+    }
+}
+
+// names of the children that are rule nodes with status `st`, as a set
+pub open spec fn names_with(children: Seq<EventRecord>, st: Status, upto: int) -> ISet<Seq<char>> {
+    ISet::new(|n: Seq<char>| exists|i: int| 0 <= i < upto && i < children.len() && rule_status_of(children[i]) == Some((n, st)))
+}
+
+// the rule names of the `Rule` entries of a not_compliant list, in order
+pub open spec fn rule_entry_names(v: Seq<ClauseReport>) -> Seq<Seq<char>>
+    decreases v.len()
+{
+    if v.len() == 0 { Seq::empty() }
+    else {
+        let rest = rule_entry_names(v.drop_last());
+        match cr_rule_name(v.last()) { Some(n) => rest.push(n), None => rest }
+    }
+}
+
+// the names of the FAIL rule children, in order
+pub open spec fn failed_names(children: Seq<EventRecord>) -> Seq<Seq<char>>
+    decreases children.len()
+{
+    if children.len() == 0 { Seq::empty() }
+    else {
+        let rest = failed_names(children.drop_last());
+        match rule_status_of(children.last()) {
+            Some((n, st)) => if st == Status::FAIL { rest.push(n) } else { rest },
+            None => rest,
+        }
+    }
+}
+
+
+// every record of the list is a rule record (what eval_rules_file produces under a FileCheck node: U-file)
+pub open spec fn all_rules(s: Seq<EventRecord>) -> bool {
+    forall|i: int| 0 <= i < s.len() ==> rule_status_of(#[trigger] s[i]) is Some
+}
+} // mod names
+pub use names::*;
 // ---- raw spec_failed.rs
 // specification of the `failed` group.
 // wf_recs: what the evaluator guarantees about the records it hands to the reporters -- ASSUMED here (composition gap,
@@ -685,9 +744,86 @@ pub broadcast proof fn lemma_shapes_push(a: Seq<ClauseReport>, e: ClauseReport)
     lemma_shapes_prefix(a, seq![e], a.len());
     assert(a.push(e) =~= a + seq![e]);
 }
+
+// ---- composition with group `report`: on rule records, the Rule entries are exactly the FAIL rules, in order ----
+pub open spec fn shape_names(sh: Seq<Shape>) -> Seq<Seq<char>>
+    decreases sh.len()
+{
+    if sh.len() == 0 { Seq::empty() }
+    else {
+        let rest = shape_names(sh.drop_last());
+        match sh.last() { Shape::RuleE { name, .. } => rest.push(name), _ => rest }
+    }
+}
+
+pub proof fn lemma_entry_names_are_shape_names(v: Seq<ClauseReport>)
+    ensures rule_entry_names(v) == shape_names(shapes(v)),
+    decreases v.len()
+{
+    if v.len() > 0 {
+        let p = v.drop_last();
+        lemma_entry_names_are_shape_names(p);
+        assert(v =~= p.push(v.last()));
+        lemma_shapes_push(p, v.last());
+        let sp = shapes(p);
+        assert(shapes(v) == sp.push(shape_of(v.last())));
+        assert(shapes(v).drop_last() =~= sp);
+        assert(shapes(v).last() == shape_of(v.last()));
+    } else {
+        assert(shapes(v) =~= Seq::<Shape>::empty());
+    }
+}
+
+pub proof fn lemma_shape_names_push(a: Seq<Shape>, s: Shape)
+    ensures shape_names(a.push(s)) == (match s { Shape::RuleE { name, .. } => shape_names(a).push(name), _ => shape_names(a) }),
+{
+    assert(a.push(s).drop_last() =~= a);
+}
+
+pub proof fn lemma_rule_records(checks: Seq<EventRecord>, n: nat)
+    requires all_rules(checks), n <= checks.len(),
+    ensures shape_names(many_recs(checks, n)) == failed_names(checks.take(n as int)),
+    decreases n
+{
+    if n == 0 {
+        assert(checks.take(0) =~= Seq::<EventRecord>::empty());
+    } else {
+        lemma_rule_records(checks, (n - 1) as nat);
+        let r = checks[n - 1];
+        let prev = many_recs(checks, (n - 1) as nat);
+        assert(rule_status_of(r) is Some);
+        assert(checks.take(n as int).drop_last() =~= checks.take(n - 1));
+        assert(checks.take(n as int).last() == r);
+        match r.container {
+            Some(RecordType::RuleCheck(ns)) => {
+                if ns.status == Status::FAIL {
+                    let e = Shape::RuleE { name: ns.name@, custom: opt_view(ns.message), kids: many_recs(r.children@, r.children@.len()) };
+                    assert(one_rec(r) =~= seq![e]);
+                    assert(prev + seq![e] =~= prev.push(e));
+                    lemma_shape_names_push(prev, e);
+                } else {
+                    assert(one_rec(r) =~= Seq::<Shape>::empty());
+                    assert(prev + Seq::<Shape>::empty() =~= prev);
+                }
+            }
+            _ => {}
+        }
+    }
+}
+
+pub broadcast proof fn lemma_rules_only(checks: Seq<EventRecord>, res: Seq<ClauseReport>)
+    ensures
+        all_rules(checks) && shapes(res) == many_recs(checks, checks.len()) ==> #[trigger] rule_entry_names(res) == #[trigger] failed_names(checks),
+{
+    if all_rules(checks) && shapes(res) == many_recs(checks, checks.len()) {
+        lemma_entry_names_are_shape_names(res);
+        lemma_rule_records(checks, checks.len());
+        assert(checks.take(checks.len() as int) =~= checks);
+    }
+}
 } // mod failed_model
 pub use failed_model::*;
-broadcast use {failed_model::lemma_shapes_concat, failed_model::lemma_shapes_push};
+broadcast use {failed_model::lemma_shapes_concat, failed_model::lemma_shapes_push, failed_model::lemma_rules_only};
 // ---- fn guard/src/rules/mod.rs::resolved
 impl QueryResult {
     pub fn resolved(&self) -> (res: Option<Rc<PathAwareValue>>)
@@ -731,6 +867,8 @@ fn report_all_failed_clauses_for_rules<'value>(
         wf_recs(checks@),
     ensures
         shapes(res@) == many_recs(checks@, checks@.len()),
+        // the clause simplified_json_from_root (U-simpl, group report) assumes of this function
+        all_rules(checks@) ==> rule_entry_names(res@) == failed_names(checks@),
 {
     let mut clauses = Vec::with_capacity(checks.len());
     for current in it: checks
@@ -1079,7 +1217,7 @@ match &current.container {
                         BinaryReport {
                             context: current.context.to_string(),
                             messages: Messages {
-                                custom_message: None,
+                                custom_message: custom_message.clone(),
                                 error_message: Some(error_message),
                                 location: Some(from.resolved().unwrap().self_path().1),
                             },
